@@ -153,9 +153,29 @@ Fixpoint bools_eqb (a b : list bool) : bool :=
   | _, _ => false
   end.
 
+Fixpoint path_eqb (p q : path) : bool :=
+  match p, q with
+  | [], [] => true
+  | a :: p', b :: q' => addr_eqb a b && path_eqb p' q'
+  | _, _ => false
+  end.
+Fixpoint path_prefixb (p q : path) : bool :=
+  match p, q with
+  | [], _ => true
+  | a :: p', b :: q' => addr_eqb a b && path_prefixb p' q'
+  | _ :: _, [] => false
+  end.
+
 (** Does the move switch the branch taken by some Cond? *)
 Definition flips (g : gf) (c0 : cm) (args0 : value) (c1 : cm) (args1 : value) : bool :=
-  negb (bools_eqb (fst (gf_checks g c0 args0)) (fst (gf_checks g c1 args1))).
+  negb (bools_eqb (map snd (fst (gf_checks g c0 args0))) (map snd (fst (gf_checks g c1 args1)))).
+
+(** paths of the Conds whose condition differs (or that exist on one side only) *)
+Definition flipped_conds (g : gf) (c0 : cm) (args0 : value) (c1 : cm) (args1 : value) : list path :=
+  let l0 := fst (gf_checks g c0 args0) in let l1 := fst (gf_checks g c1 args1) in
+  let differs (a b : list (path * bool)) :=
+    filter (fun q => negb (existsb (fun q' => path_eqb (fst q) (fst q') && Bool.eqb (snd q) (snd q')) b)) a in
+  map fst (differs l0 l1 ++ differs l1 l0).
 
 (** [strict = false] drops the "unconstrained addresses keep their old values"
     clause for moves that flip a Cond (known finding K1). *)
@@ -183,12 +203,6 @@ Definition upd_spec (strict : bool) (g : gf) (old : tobs) (args0 : value) (x : o
     visited sites is unchanged (no Cond flip) the weight is the change in joint
     density minus the change in the log prior of the selected sites; the
     discard holds the old values of the selected sites. *)
-Fixpoint path_eqb (p q : path) : bool :=
-  match p, q with
-  | [], [] => true
-  | a :: p', b :: q' => addr_eqb a b && path_eqb p' q'
-  | _, _ => false
-  end.
 Definition same_paths' (l1 l2 : list (path * Z)) : bool :=
   Nat.eqb (length l1) (length l2) &&
   forallb (fun q => existsb (fun q' => path_eqb (fst q) (fst q')) l2) l1.
@@ -213,7 +227,13 @@ Definition regen_spec (g : gf) (old : tobs) (args0 : value) (s : sel) (args1 : v
                | None => true
                end)
           ls1 &&
-  (flip || negb (same_paths' ls0 ls1) ||
+  (* the MH weight is required whenever the visited sites are unchanged, and also
+     across a Cond switch when no selected site sits under a switched Cond (the
+     mixture-indicator move: the switched Cond's own choices are all unselected) *)
+  (let fl := flipped_conds g oldc args0 newc args1 in
+   let sel_under_flip :=
+     existsb (fun q => selected s (fst q) && existsb (fun c => path_prefixb c (fst q)) fl) (ls0 ++ ls1) in
+   (if flip then sel_under_flip else negb (same_paths' ls0 ls1)) ||
    Z.eqb w ((total ls1 - total ls0) - (total_on (selected s) ls1 - total_on (selected s) ls0))).
 
 (** ** Cases *)
